@@ -99,12 +99,8 @@ ImportApply(s, p, a) ==
                                     !.wiped = @ \cup pstd1 \cup (pfor1 \ {c})],
                    res |-> "ok"]
 
-ImportClass(s, p, a) ==
-  LET b == Len(s.par) + 1
-      s1 == [s EXCEPT !.par = Append(@, p), !.ann = Append(@, a)]
-      pfor1 == IF a.k = "F" THEN s.pfor \cup {b} ELSE s.pfor
-      r == ImportApply(s, p, a)
-  IN a.k \o (IF r.res = "err-forced-pending" THEN "+dup"
+ImportClass(s, a, r) ==
+     a.k \o (IF r.res = "err-forced-pending" THEN "+dup"
              ELSE IF r.res = "err-forced-dependency" THEN "+dep"
              ELSE IF r.s.setId # s.setId THEN "+fapply" ELSE "")
 
@@ -177,13 +173,12 @@ FinaliseOps(s) == {[op |-> "Finalise", p |-> 0, a |-> NoAnn, b |-> b] : b \in {x
 EnabledOps(s) == {o \in ImportOps(s) : o.a.k = "F" => o.a.m <= Num(s, o.p) + 1} \cup FinaliseOps(s)
 
 Apply(s, o) == IF o.op = "Import"
-               THEN LET r == ImportApply(s, o.p, o.a) IN [s |-> r.s, res |-> r.res, cls |-> ImportClass(s, o.p, o.a)]
-               ELSE [s |-> FinaliseApply(s, o.b), res |-> "ok", cls |-> FinaliseClass(s, o.b)]
+               THEN LET r == ImportApply(s, o.p, o.a) IN [s |-> r.s, res |-> r.res, cls |-> IF Record THEN ImportClass(s, o.a, r) ELSE ""]
+               ELSE [s |-> FinaliseApply(s, o.b), res |-> "ok", cls |-> IF Record THEN FinaliseClass(s, o.b) ELSE ""]
 
 Init == st = InitState /\ hist = <<>> /\ done = FALSE
 
 Step(o) == /\ ~done /\ Len(hist) < Depth
-           /\ o \in EnabledOps(st)
            /\ LET r == Apply(st, o)
               IN /\ st' = r.s
                  /\ hist' = IF Record THEN Append(hist, [o |-> o, res |-> r.res, cls |-> r.cls, obs |-> Obs(r.s)])
